@@ -664,7 +664,10 @@ class C12(SimSpec):
                                  modes=('roomy',), max_duration=8, **kw)),
                    (1, scenarios(min_obs=2, delays=True, start_gaps=(0, 0, 1, 1, 2, 3), **kw)),
                    (1, scenarios(unsorted=True, min_obs=2, delays=True, **kw)), (1, swarm(kw, delays=True)),
-                   (1, scenarios(delays=True, **kw)))
+                   (1, scenarios(delays=True, **kw)),
+                   # hot / cold capacities that are not whole numbers: the free-space columns must report them exactly
+                   (1, scenarios(frac_cap=True, min_obs=2, delays=True, start_gaps=(0, 0, 1, 1, 2, 3), overlap=True,
+                                 modes=('roomy',), max_duration=8, **kw)))
 
     def run(self, sc):
         tr = run_scenario(sc)
@@ -703,14 +706,15 @@ class C12(SimSpec):
     def classes(self, tr):
         same, rev = ingest_end_orders(tr)
         return {'overlapping_ingests_end_in_order': same, 'overlapping_ingests_end_reversed': rev,
-                'rows_compared': 0 if tr.df is None else len(tr.df), 'paused_variant': int(tr.paused is not None)}
+                'rows_compared': 0 if tr.df is None else len(tr.df), 'paused_variant': int(tr.paused is not None),
+                'fractional_buffer_capacity': int(any(tr.sc[b]['capacity'] != int(tr.sc[b]['capacity']) for b in ('hot', 'cold')))}
 
     def summary(self, tr):
         s = super().summary(tr)
         s['rows'] = None if tr.df is None else len(tr.df)
         if tr.df is not None and len(tr.df) > 2:
             t = len(tr.df) // 2
-            s['row_sample'] = {'t': t, 'reported': {c: int(tr.df[c][t]) for c in O.C12_COLS}, 'shadow': tr.snaps.get(t)}
+            s['row_sample'] = {'t': t, 'reported': {c: float(tr.df[c][t]) if tr.df[c][t] != int(tr.df[c][t]) else int(tr.df[c][t]) for c in O.C12_COLS}, 'shadow': tr.snaps.get(t)}
         return s
 
 
